@@ -1066,8 +1066,15 @@ static void gen_op(char *line, size_t cap) {
     snprintf(line, cap, "OP addinfo %u %s %s", id, h1, h2);
   } else if (r < 27) {
     static const unsigned long opv[] = {1, 2, 4, 8, 1, 1};
-    hexs(h1, some_str()); hexs(h2, some_str());
-    snprintf(line, cap, "OP tinfo %lu %s %s", opv[rng_below(6)], h1, h2);
+    /* one topology-info op in three repeats the previous pair with OP_ADD: the same name=value twice is legal and must survive the
+     * round trip, count and order included (C05-r8) */
+    static char last1[sizeof h1], last2[sizeof h2]; static int have_last;
+    if (have_last && rng_chance(33)) snprintf(line, cap, "OP tinfo 1 %s %s", last1, last2);
+    else {
+      hexs(h1, some_str()); hexs(h2, some_str());
+      memcpy(last1, h1, sizeof last1); memcpy(last2, h2, sizeof last2); have_last = 1;
+      snprintf(line, cap, "OP tinfo %lu %s %s", opv[rng_below(6)], h1, h2);
+    }
   } else if (r < 33) {
     hexs(h1, some_str());
     snprintf(line, cap, "OP subtype %u %s", id, rng_chance(10) ? "-" : h1);
